@@ -132,7 +132,7 @@ Reset ==
   /\ msgQ' = <<>> /\ netIn' = <<>> /\ netEnd' = "open" /\ wrm' = "accept"
   /\ ph' = "run" /\ inCtx' = "no" /\ retd' = <<>>
   /\ ops' = <<>> /\ sts' = <<>> /\ nh' = 1 /\ discW' = FALSE
-  /\ g' = [ids |-> {}, sids |-> {}, nsub |-> 0, szrej |-> 0, ncancel |-> 0]
+  /\ g' = [ids |-> {}, sids |-> {}, nsub |-> 0, szrej |-> 0, szany |-> 0, ncancel |-> 0]
   /\ resumeQ' = <<>> /\ supp' = {} /\ secsAgo' = <<>> /\ blockedOn' = <<>>
 
 End ==
@@ -271,6 +271,8 @@ ApplyOut(out, freed, newids, newsids) ==
   /\ g' = [g EXCEPT !.ids = (@ \ freed) \cup newids, !.sids = @ \cup newsids,
                      !.szrej = IF \E i \in 1..Len(out.comp) : out.comp[i].slot.k = "res" /\ out.comp[i].slot.res.kind = "MaximumPacketSizeExceeded"
                                      /\ out.comp[i].op \in DOMAIN ops /\ ops[out.comp[i].op].kind = "pub" /\ ops[out.comp[i].op].qos > 0
+                               THEN @ + 1 ELSE @,
+                     !.szany = IF \E i \in 1..Len(out.comp) : out.comp[i].slot.k = "res" /\ out.comp[i].slot.res.kind = "MaximumPacketSizeExceeded"
                                THEN @ + 1 ELSE @]
 
 TakeResume ==                                                                  \* C17
@@ -576,9 +578,13 @@ Stall(detail) == IF LostWakeupAhead(l + 1) THEN V(<<"C03", "C16">>, "lost-wakeup
 HeadNotWritten ==
   LET m == Head(msgQ) nx == NextPollOf(m.op, l) IN
     IF nx.kind = "MaximumPacketSizeExceeded" THEN V("C12", "rejected-under-limit", <<m.pk.t, m.pk.len, S.M>>)
-    ELSE IF nx.kind = "QuotaExceeded" /\ m.pk.t = "PUBREL" THEN V(<<"C06", "C10">>, "pubrel-refused-by-quota", <<m.pk.id, S.quota>>)
+    \* (the publish is on the wire and now completes without its PUBCOMP: C05 as well)
+    ELSE IF nx.kind = "QuotaExceeded" /\ m.pk.t = "PUBREL" THEN V(<<"C06", "C10", "C05">>, "pubrel-refused-by-quota", <<m.pk.id, S.quota>>)
     ELSE IF nx.kind = "QuotaExceeded" THEN
            (IF g.szrej > 0 THEN V(<<"C12", "C10">>, "refused-request-left-quota-behind", <<S.quota, S.R, g.szrej>>)
+            \* (a request that the quota never limits - anything but a new QoS>0 PUBLISH - is kept from the wire and its
+            \* caller told so instead of waiting for the acknowledgement: C05 as well)
+            ELSE IF m.pk.t # "PUBLISH" THEN V(<<"C10", "C05">>, "rejected-under-quota", <<m.pk.t, S.quota, S.R>>)
             ELSE V("C10", "rejected-under-quota", <<S.quota, S.R>>))
     ELSE IF m.pk.t \in {"PUBLISH", "PUBREL"} THEN V(WithC15("C06"), "request-not-written", <<m.pk.t, nx.kind>>)
     ELSE V(WithC15("C05"), "request-not-written", <<m.pk.t, nx.kind>>)
@@ -654,7 +660,12 @@ ClassifyCtxEnd(res) ==
        IF retd = <<>> THEN
          (IF res.kind = "InternalError" THEN V("C15", "run-returned-internal-error", <<>>)
           ELSE IF res.kind = "SocketClosed" /\ netEnd = "open" THEN V("C03", "early-end-of-stream", Ln.unread)
-          ELSE V(<<"C13">> \o OwedTags, "unexpected-return", res.kind))
+          \* (run() ending with Ok although no DISCONNECT was written and none came, after a request was refused for its
+          \* size: the refusal has stopped the context, later requests that fit are never written - C12 as well)
+          \* (and after a cancellation: nothing but the cancelled caller's gone channel distinguishes this run from one that
+          \* keeps serving - C15 as well)
+          ELSE V(<<"C13">> \o OwedTags \o (IF res.kind = "Ok" /\ g.szany > 0 /\ ~discW THEN <<"C12">> ELSE <<>>)
+                          \o (IF g.ncancel > 0 /\ HandlesAlive THEN <<"C15">> ELSE <<>>), "unexpected-return", res.kind))
        ELSE V("C13", "wrong-return", <<retd[1].kind, retd[1].rc, res.kind, res.rc>>)
 
 ClassifyPollOp ==
@@ -670,12 +681,15 @@ ClassifyPollOp ==
          V(<<"C16">> \o (IF got.kind = "ContextExited" THEN <<"C14">> ELSE <<"C05">>), "completed-by-a-poll-without-wakeup", <<ops[Ln.k].kind, got.r, got.kind>>)
     ELSE IF want.r = "pending" THEN
         (IF got.kind = "ContextExited" THEN V("C14", "context-exited-while-alive", Ln.k)
-         ELSE V(WithC15("C05"), "completed-without-own-ack", <<ops[Ln.k].kind, got.r, got.kind>>))
+         \* (for a publish this is also its handshake going wrong: it reported an outcome before the acknowledgement that
+         \* decides it - e.g. a PUBREC below 0x80 taken for a refusal)
+         ELSE V((IF ops[Ln.k].kind = "pub" THEN <<"C05", "C06">> ELSE <<"C05">>) \o (IF g.ncancel > 0 THEN <<"C15">> ELSE <<>>),
+                "completed-without-own-ack", <<ops[Ln.k].kind, got.r, got.kind>>))
     ELSE IF got.r = "pending" THEN
         (IF want.kind = "ContextExited" THEN V("C14", "hangs-after-context-gone", <<ops[Ln.k].kind, ops[Ln.k].st>>)
          ELSE V(WithC15("C05"), "completion-withheld", <<ops[Ln.k].kind, want.r, want.kind>>))
     ELSE IF want.kind = "ContextExited" \/ got.kind = "ContextExited" THEN V("C14", "wrong-result-after-exit", <<want.kind, got.kind>>)
-    ELSE IF got.kind = "QuotaExceeded" /\ ops[Ln.k].st = "wait2" THEN V(<<"C06", "C10">>, "pubrel-refused-by-quota", <<want.r, want.kind>>)
+    ELSE IF got.kind = "QuotaExceeded" /\ ops[Ln.k].st = "wait2" THEN V(<<"C06", "C10", "C05">>, "pubrel-refused-by-quota", <<want.r, want.kind>>)
     ELSE IF want.kind = "MaximumPacketSizeExceeded" \/ got.kind = "MaximumPacketSizeExceeded"
          THEN V("C12", "size-result", <<want.kind, got.kind>>)    \* the size rule comes first; a size refusal the reference does not make is C12's too
     ELSE IF got.kind = "QuotaExceeded" /\ g.szrej > 0 THEN V(<<"C12", "C10">>, "refused-request-left-quota-behind", <<want.kind, got.kind, g.szrej>>)
@@ -736,7 +750,7 @@ Classify ==
     [] Ln.e = "tdone"     -> V("C11", "operations-failed-or-missing", <<Ln.failed, Ln.written, Ln.expected>>)
     [] Ln.e = "abort"     -> V(<<"C03", "C04">>, "process-aborted", <<Ln.why, Ln.shard, Ln.completed>>)
     [] Ln.e = "disccmp"   -> V("C16", "outcome-depends-on-polling-discipline", <<Ln.variant, Ln.detail>>)
-    [] Ln.e = "first"     -> IF Ln.res.r = "panic" THEN V("C04", "panic-in-connect", Ln.inj)
+    [] Ln.e = "first"     -> IF Ln.res.r = "panic" THEN V(<<"C04", "C13">>, "panic-in-connect", <<Ln.inj, Ln.rc>>)   \* no outcome at all
                              ELSE V("C13", "first-response", <<Ln.phase, Ln.inj, Ln.rc, Ln.res.kind, Ln.res.rc>>)
     [] Ln.e = "reconnect" /\ Ln.ok = 0 /\ ph = "ret"
                           -> V("C13", "connect-on-a-new-transport-did-not-return-the-connack", <<>>)
@@ -759,7 +773,7 @@ Init ==
   /\ cfg = [run |-> 0, fam |-> "", recon |-> 0]
   /\ S = InitS(1, 0) /\ msgQ = <<>> /\ netIn = <<>> /\ netEnd = "open" /\ wrm = "accept"
   /\ ph = "run" /\ inCtx = "no" /\ retd = <<>> /\ ops = <<>> /\ sts = <<>> /\ nh = 1 /\ discW = FALSE
-  /\ g = [ids |-> {}, sids |-> {}, nsub |-> 0, szrej |-> 0, ncancel |-> 0] /\ resumeQ = <<>> /\ supp = {} /\ secsAgo = <<>> /\ blockedOn = <<>>
+  /\ g = [ids |-> {}, sids |-> {}, nsub |-> 0, szrej |-> 0, szany |-> 0, ncancel |-> 0] /\ resumeQ = <<>> /\ supp = {} /\ secsAgo = <<>> /\ blockedOn = <<>>
 
 Next == Reset \/ End \/ Normal \/ Diverge \/ Skip
 
